@@ -618,7 +618,8 @@ Definition step (strict : bool) (s : sys) (o : op) : M :=
           | Some k =>
               if strict && negb (Bool.eqb (api_test (a_api a) k) (a_loaded a)) then Rejected else
               let s1 := set_calls s (drop_call u (s_calls s) ++ [mkCall u (a_conn a) (a_api a) (a_loaded a) true]) in
-              ret (if a_loaded a then put s1 (a_conn a) (set_life k Disconnecting (k_ups k) (k_downs k)) else s1)
+              ret (if a_loaded a && api_stores (a_api a)
+                   then put s1 (a_conn a) (set_life k Disconnecting (k_ups k) (k_downs k)) else s1)
           | None => Fault
           end
       | None => Rejected
